@@ -176,6 +176,13 @@ def tup_pat(names):
     return "'(" + ", ".join(names) + ")"
 
 
+def mkbind(code, pat, k):
+    """bind code (fun pat => k), with the right-identity law applied when k is `Ok pat`."""
+    if k.strip() == "Ok " + pat and not pat.startswith("'") and pat != "_":
+        return code
+    return f"bind ({code}) (fun {pat} =>\n  {k})"
+
+
 def tup_ty(names):
     if not names:
         return "unit"
@@ -551,7 +558,7 @@ class Fn:
                 # the bound name is defined only inside the continuation
                 code_r = r.code
                 self.defined.add(t.id)
-                return f"bind ({code_r}) (fun {self.v(t.id)} =>\n  {cont()})"
+                return mkbind(code_r, self.v(t.id), cont())
             if isinstance(t, ast.Attribute):
                 path, root = [], t
                 while isinstance(root, ast.Attribute):
@@ -568,7 +575,7 @@ class Fn:
                 pth = "[" + "; ".join(cstr(p) for p in path) + "]"
                 x = self.v(root.id)
                 code = self.seq([r], lambda ns: f"py_setattr_path classes {x} {pth} {ns[0]}")
-                return f"bind ({code}) (fun {x} =>\n  {cont()})"
+                return mkbind(code, x, cont())
             fail(f, s, "unsupported assignment target")
         if isinstance(s, ast.If):
             c = self.as_bool(self.expr(s.test))
@@ -598,7 +605,7 @@ class Fn:
                 self.used.add(x)
             ite = (lambda cn: f"(if {cn} then\n  {a}\n else\n  {b})")
             head = ite(c.code) if c.pure else f"bind ({c.code}) (fun c => {ite('c')})"
-            return f"bind ({head}) (fun {tup_pat([self.v(x) for x in m])} =>\n  {cont()})"
+            return mkbind(head, tup_pat([self.v(x) for x in m]), cont())
         if isinstance(s, ast.For):
             if s.orelse:
                 fail(f, s, "for/else")
@@ -627,7 +634,7 @@ class Fn:
             self.defined = set(saved)
             code = self.seq([d], lambda ns: f"py_for_items {ns[0]} {tup(st)} "
                                             f"(fun {tup_pat(st)} {self.v(kname)} {self.v(vname)} =>\n  {body})")
-            return f"bind ({code}) (fun {tup_pat(st)} =>\n  {cont()})"
+            return mkbind(code, tup_pat(st), cont())
         if not isinstance(s.target, ast.Name):
             fail(f, s, "unsupported for-loop target")
         if any(isinstance(n, (ast.Return, ast.Break, ast.Continue, ast.For, ast.While))
@@ -658,7 +665,7 @@ class Fn:
             f"  let {tup_pat(st)} := st in\n  {body}.\n")
         call = lname + "".join(f" {self.v(c)}" for c in captured)
         code = self.seq([it], lambda ns: f"py_for {ns[0]} {tup(st)} ({call})")
-        return f"bind ({code}) (fun {tup_pat(st)} =>\n  {cont()})"
+        return mkbind(code, tup_pat(st), cont())
 
     def function(self, fd: ast.FunctionDef, params, style):
         """Returns the Coq body (type res cfg)."""
